@@ -10,6 +10,8 @@ import OpusProofs.SilkSynthIdxCore
 import OpusProofs.SilkSynthIdxHist
 import OpusProofs.SilkSynthIdxParams
 import OpusProofs.SilkSynthIdxOut
+import OpusProofs.SilkSynthIdxInit
+import OpusProofs.SilkParamsPitchSpread
 /-
   C18 — SILK side information always dequantises to stable, in-range parameters.
 
@@ -616,6 +618,62 @@ example : (coreAccesses (voicedCoreIn 16 4 [302, 302, 302, 302] 0 0 0 100 false 
       "sLTP_Q15:r=317..640,w=317..639" ∧ Arr.size (cfgOf 16 4) .sLTP_Q15 = 640 := by
   decide +kernel
 
+open Opus.SilkSynthIdx in
+/-- No read of an uninitialised element of `sLTP_Q15` in `silk_decode_core`.  `sLTP_Q15` is a fresh stack array in every
+    call (`ALLOC( sLTP_Q15, ltp_mem_length + frame_length, opus_int32 )`, decode_core.c:60); the re-whitening of sub-frame 0
+    (and of sub-frame 2 when the NLSFs are interpolated) writes `[sLTP_buf_idx − lag − 2, sLTP_buf_idx)` with the lag of
+    THAT sub-frame, every sub-frame appends `subfr_length` elements, and sub-frame `k` reads from
+    `sLTP_buf_idx − lag_k − 2` (the gain-adjustment loop :170-172 and the 5-tap prediction :180-189, which must also stay
+    strictly below the element being written: `lag_k ≥ 3`).  `coreInitOk` evaluates exactly that on the index model; it
+    holds for every admissible input whose lags grow by at most one sub-frame relative to the first one — for the
+    transition branch after a concealed frame both voiced sub-frames use `lagPrev`. -/
+theorem decode_core_no_uninitialised_ltp_read (x : CoreIn) (h : CoreOk x)
+    (hsp : x.signalType = 2 → ∀ k, k < x.nbSubfr → x.pitchL.getD k 0 ≤ x.pitchL.getD 0 0 + x.cfg.subfr) :
+    coreInitOk x = true :=
+  coreInitOk_of_spread x h (cfgOf_num x.fsKHz x.nbSubfr h.fs h.nb) hsp
+
+open Opus.SilkSynthIdx in
+/-- … and that hypothesis is what `silk_decode_pitch` delivers: the lags of one frame are `limit( lag + contour[k] )`
+    with one `lag`, the clamp is monotone and 1-Lipschitz, and no contour of the four regenerated codebooks spreads by
+    more than 18 samples (`decodePitch_spread`; 3 at 8 kHz) — less than the shortest sub-frame (40).  So for ANY lag
+    index and any contour index inside the codebook a voiced frame reads only initialised LTP state, whatever the
+    remaining inputs. -/
+theorem decode_core_initialised_after_decode_pitch (fs : Int) (nb : Nat) (lagIndex contour : Int) (lags : List Int)
+    (hfs : fs = 8 ∨ fs = 12 ∨ fs = 16) (hnb : nb = 2 ∨ nb = 4) (hc0 : 0 ≤ contour)
+    (hc1 : ∀ cb, pitchCodebook fs nb = .ok cb → contour < (cb.2 : Int))
+    (hl : decodePitch lagIndex contour fs nb = .ok lags)
+    (qoff lossCnt prevSig lagPrev : Int) (interp : Bool) (gd ad : List Bool) (hq : 0 ≤ qoff ∧ qoff ≤ 1) :
+    coreInitOk (voicedCoreIn fs nb lags qoff lossCnt prevSig lagPrev interp gd ad) = true := by
+  obtain ⟨lags', hl', hlen, hr⟩ := pitch_in_range lagIndex contour fs nb hfs hnb hc0 hc1
+  rw [hl] at hl'
+  cases hl'
+  have hok := voicedCoreIn_ok fs nb lags qoff lossCnt prevSig lagPrev interp gd ad hfs hnb hq hlen hr
+  apply decode_core_no_uninitialised_ltp_read _ hok
+  intro _ k hk
+  have hsp := decodePitch_spread lagIndex contour fs nb hfs hnb hc0 hc1 lags hl k 0 hk (by rcases hnb with rfl | rfl <;> omega)
+  have hS : 40 ≤ (voicedCoreIn fs nb lags qoff lossCnt prevSig lagPrev interp gd ad).cfg.subfr := by
+    have hc := cfgOf_num fs nb hfs hnb
+    rcases hc.cases with ⟨_, h, _⟩ | ⟨_, h, _⟩ | ⟨_, h, _⟩ <;> (show 40 ≤ (cfgOf fs nb).subfr; omega)
+  show lags.getD k 0 ≤ lags.getD 0 0 + _
+  omega
+
+open Opus.SilkSynthIdx in
+/- Non-vacuity, both ways: the decoded lags of a real contour pass; lags in range that jump by more than a sub-frame
+   (which no contour produces) make the model itself report the uninitialised read — sub-frame 1 would read
+   `sLTP_Q15[198..]` while only `[286, 400)` has been written — the same verdict the instrumented C code gives in the tie. -/
+example : decodePitch 255 33 16 4 = .ok [278, 284, 288, 288] ∧
+    coreInitOk (voicedCoreIn 16 4 [278, 284, 288, 288] 0 0 0 100 true [] [true, true, true, true]) = true ∧
+    coreInitOk (voicedCoreIn 16 4 [32, 200, 200, 200] 0 0 0 100 false [] []) = false ∧
+    coreInitOk (voicedCoreIn 16 4 [32, 112, 192, 272] 0 0 0 100 false [] []) = true := by decide +kernel
+
+open Opus.SilkSynthIdx in
+/-- No read of an uninitialised element of `sLTP_Q14` in `silk_PLC_conceal` (a fresh stack array, PLC.c:228): PLC.c:329-331
+    writes `[ltp_mem_length − lag₀ − 2, ltp_mem_length)`, sub-frame `k` reads from `sLTP_buf_idx − lag_k − 2` with the
+    drifting lag (`pitchL_Q8 += 1 %`, i.e. at most 4 samples per sub-frame, against ≥ 40 appended elements), and the
+    short-term synthesis reads `[ltp_mem_length − 16, …)`, copied in at PLC.c:372 just before. -/
+theorem plc_conceal_no_uninitialised_ltp_read (s : DecSt) (h : ConcealOk s) : concealInitOk s = true :=
+  concealInitOk_of_inv s h.cfg h.pitch
+
 namespace SynthExample
 open Opus.SilkSynthIdx
 def fVoiced : FrameIn :=
@@ -649,9 +707,25 @@ theorem plc_conceal_indices_in_bounds (s : DecSt) (h : ConcealOk s) (lowFirst : 
   concealAccesses_ok s h lowFirst
 
 open Opus.SilkSynthIdx in
+example : concealInitOk (step (step (step resetSt (.setFs 16 4)) (.frame SynthExample.fVoiced)) (.frame SynthExample.fLost)) = true := by
+  decide +kernel
+
+open Opus.SilkSynthIdx in
 example : ConcealOk (step (step (step resetSt (.setFs 16 4)) (.frame SynthExample.fVoiced)) (.frame SynthExample.fLost)) :=
   { cfg := by decide +kernel, loss := by decide +kernel, pitch := by decide +kernel, plcNb := by decide +kernel,
     plcSubfr := by decide +kernel }
+
+open Opus.SilkSynthIdx in
+/-- Both arrays, on the decoder-state invariant (which `silk_synthesis_indices_in_bounds` shows is preserved along every
+    history): a `silk_decode_frame` call — decoded or concealed, after any history of frames, losses, rate switches and
+    resets — reads no uninitialised element of `sLTP_Q15` / `sLTP_Q14`, provided the lags of a decoded voiced frame are
+    those of one contour (`decode_core_initialised_after_decode_pitch`: spread ≤ 18 < sub-frame length). -/
+theorem decode_frame_no_uninitialised_ltp_read (s : DecSt) (f : FrameIn) (hcfg : Configured s) (hinv : Inv s)
+    (hf : FrameOk s f)
+    (hsp : f.lost = false → f.signalType = 2 → ∀ k, k < s.nbSubfr →
+      f.pitchL.getD k 0 ≤ f.pitchL.getD 0 0 + s.cfg.subfr) :
+    frameInitOk s f = true :=
+  frameInitOk_ok s f hcfg hinv hf hsp
 
 open Opus.SilkSynthIdx in
 /-- One call of `silk_decode_frame` (silk/decode_frame.c:44-172: `silk_decode_core` or `silk_PLC_conceal`,
